@@ -146,9 +146,13 @@ impl CountVectorizerParams {
             Tokenizer::Function(fp) => {
                 self.0.tokenizer_function = Some(fp);
                 self.0.tokenizer_deserialization_guard = true;
+                // the regex is no longer used: an expression set earlier must not decide the check
+                self.0.split_regex_expr = r"\b\w\w+\b".to_string();
             }
             Tokenizer::Regex(regex_str) => {
                 self.0.split_regex_expr = regex_str.to_string();
+                // the regex replaces a function tokenizer set earlier
+                self.0.tokenizer_function = None;
                 self.0.tokenizer_deserialization_guard = false;
             }
         }
